@@ -105,8 +105,10 @@ type Exec struct {
 	Values   map[string]any // harness scratch (results of root threads etc.)
 }
 
-// X is the execution in progress (one at a time per process).
-var X *Exec
+// X is the execution in progress (one at a time per process). Outside executions it is a
+// finished dummy, so that instrumented code called by a harness between executions (building
+// fixtures with the repository's own API) runs as plain sequential code.
+var X = &Exec{teardown: true, fin: true, closed: map[uintptr]bool{}, objIDs: map[uintptr]int{}, Values: map[string]any{}, finished: make(chan struct{})}
 
 const startClock = int64(1_700_000_000) * 1_000_000_000
 
